@@ -15,7 +15,7 @@ VERIF = B.VERIF
 OUT = os.environ.get('VERIF_OUT', VERIF)   # redirected by the mutant self-test
 REPLAYS = os.path.join(OUT, 'replays')
 EVIDENCE = os.path.join(OUT, 'evidence')
-KNOWN = os.path.join(VERIF, 'known_findings.json')
+KNOWN = os.environ.get('VERIF_KNOWN', os.path.join(VERIF, 'known_findings.json'))   # override: self-test only
 WORK = os.path.join(VERIF, 'build', 'work')
 
 SAN_ENV = {
